@@ -836,7 +836,13 @@ func (c *GroupCoordinator) parseSubscriptionTopics(protocols []kmsg.JoinGroupReq
 	}
 	topicCount := binary.BigEndian.Uint32(data[read : read+4])
 	read += 4
-	topics := make([]string, 0, topicCount)
+	// topicCount comes from the client: every topic takes at least its 2-byte
+	// length, so never reserve more than the remaining bytes can hold.
+	capHint := len(data[read:]) / 2
+	if uint64(topicCount) < uint64(capHint) {
+		capHint = int(topicCount)
+	}
+	topics := make([]string, 0, capHint)
 	for i := uint32(0); i < topicCount && read+2 <= len(data); i++ {
 		nameLen := binary.BigEndian.Uint16(data[read : read+2])
 		read += 2
